@@ -103,7 +103,11 @@ def main():
             prev = {}
             if os.path.exists(os.path.join(out, 'meta.json')):
                 prev = json.load(open(os.path.join(out, 'meta.json')))
+            hist = prev.get('history', [])
+            if 'checks' in meta:
+                hist.append({'at': time.strftime('%Y-%m-%d %H:%M'), 'verif_commit': subprocess.run(['git', '-C', VERIF, 'log', '--format=%h', '-n1'], capture_output=True, text=True).stdout.strip(), 'verdicts': {k: v['verdict'] for k, v in meta['checks'].items()}})
             prev.update(meta)
+            prev['history'] = hist
             json.dump(prev, open(os.path.join(out, 'meta.json'), 'w'), indent=1)
     finally:
         shutil.rmtree(tmp, ignore_errors=True)
